@@ -352,6 +352,13 @@ func (e *Env) tr(x ast.Expr) Term {
 			return Term{S: "(not " + e.eq(a, b) + ")", Sort: "Bool"}
 		case token.LSS, token.LEQ, token.GTR, token.GEQ:
 			op := map[token.Token]string{token.LSS: "<", token.LEQ: "<=", token.GTR: ">", token.GEQ: ">="}[n.Op]
+			if a.Sort == "String" {
+				if sop := map[token.Token]string{token.LSS: "str.<", token.LEQ: "str.<="}[n.Op]; sop != "" {
+					return Term{S: fmt.Sprintf("(%s %s %s)", sop, a.S, b.S), Sort: "Bool"}
+				}
+				sop := map[token.Token]string{token.GTR: "str.<", token.GEQ: "str.<="}[n.Op]
+				return Term{S: fmt.Sprintf("(%s %s %s)", sop, b.S, a.S), Sort: "Bool"}
+			}
 			return Term{S: fmt.Sprintf("(%s %s %s)", op, a.S, b.S), Sort: "Bool"}
 		case token.ADD:
 			if a.Sort == "String" {
